@@ -114,6 +114,13 @@ StepAction(e) ==
   \/ /\ e.a = "StartPersist" /\ StartPersist /\ Match(e, <<>>)
   \/ /\ e.a = "Tick" /\ Tick /\ Match(e, <<>>)
   \/ /\ e.a = "StopRestart" /\ StopRestart /\ Match(e, <<>>)
+  \* C11: the live state saved as JSON and as pickle (scratch files) and loaded into fresh gateways
+  \/ /\ e.a = "Snapshot" /\ UNCHANGED vars
+     /\ Clause("rtjson",   e.json.tree = TreeSeq(Persisted(nodes)))
+     /\ Clause("rtpickle", e.pickle.tree = TreeSeq(Persisted(nodes)))
+     /\ Clause("rttransient", /\ e.json.trans = TransSeq(Persisted(nodes))
+                              /\ e.pickle.trans = TransSeq(Persisted(nodes)))
+     /\ Clause("rtraised", ~e.raised)
 
 TInit == Init /\ tid \in 1..Len(Traces) /\ pos = 1
 TNext == /\ pos <= Len(Traces[tid].ev)
